@@ -750,6 +750,15 @@ func (o outcome) String() string {
 	return "order " + strings.Join(o.order, " < ")
 }
 
+// otherOrders executes run under every explored alternative map-iteration order (see maporder_instr.go); on the plain
+// build there is nothing to control and the clause rests on the two plain executions.
+var (
+	otherOrders    = func(run func() outcome) []outcome { return nil }
+	mapOrderNote   = "plain build: map-iteration order is not under control; the same-outcome clause compares two executions"
+	mapOrderExecs  int64
+	mapOrderCapped int64
+)
+
 func runOrder(dscs []control.DSC, arch dependency.Arch) (o outcome) {
 	p, msg := mc.Guard(func() {
 		res, err := control.OrderDSCForBuild(dscs, arch)
@@ -866,6 +875,15 @@ func evaluate(scen string, in In, rows []*rowInfo, twice bool) verdict {
 	o2 := o1
 	if twice {
 		o2 = runOrder(input, arch)
+		if reflect.DeepEqual(o1, o2) {
+			// every explored map-iteration order of the same call (instrumented build) must give that outcome too
+			for _, o := range otherOrders(func() outcome { return runOrder(input, arch) }) {
+				if !reflect.DeepEqual(o1, o) {
+					o2 = o
+					break
+				}
+			}
+		}
 	}
 	inNames := func() string {
 		var x []string
@@ -1317,6 +1335,7 @@ func Run(r *mc.Run) {
 	}
 	auditScenarios(r)
 	r.Extra["distinct_dsc_texts_parsed_with_ParseDsc"] = atomic.LoadInt64(&textsParsed)
+	r.Extra["map_orders"] = map[string]interface{}{"how": mapOrderNote, "executions_under_alternative_orders": atomic.LoadInt64(&mapOrderExecs), "calls_that_hit_the_cap_of_2000": atomic.LoadInt64(&mapOrderCapped)}
 }
 
 // selfCheck validates the MODEL: worked examples, and (if libdpkg-perl is installed) Dpkg::Deps' architecture
